@@ -599,6 +599,9 @@ def run_unit(unit, ctx):
             case = {"pairs": pairs, "a": [[A.jf(x) for x in da], unit["ma"]], "b": [[A.jf(x) for x in db], unit["mb"]]}
             vs = eval_pair(case)
             p.ev(unit["ma"] != unit["mb"] or any(A.classify(x, pairs) != "inside" for x in da + db))
+            p.states += 1      # the union multiset A u B reached by a+b, b+a, +=, sum
+            p.transitions += 5
+            p.traces += 1
             p.extend(vs)
             p.outcome("viol" if vs else f"ok:{len(da)}+{len(db)}")
         p.sample(case)
@@ -630,6 +633,7 @@ def run_unit(unit, ctx):
         p.ev(True, n)
         p.states += 2 ** len(data)
         p.transitions += n
+        p.traces += n
         p.extend(vs)
         p.sample(case)
     elif kind == "adaptive":
@@ -639,6 +643,9 @@ def run_unit(unit, ctx):
         for da, db in itertools.product(ds, repeat=2):
             case = {"w": w, "a": list(da), "b": list(db), "wa": unit["wa"], "wb": unit["wb"]}
             vs = eval_adaptive(case)
+            p.states += 1
+            p.transitions += 3
+            p.traces += 1
             p.ev(bool(da) and bool(db) and (min(da) != min(db) or max(da) != max(db)))
             p.extend(vs)
         p.sample(case)
@@ -662,6 +669,8 @@ def run_unit(unit, ctx):
                 vs = eval_dask(case)
                 p.ev(len(comp) >= 2)
                 p.schedules += 1
+                p.traces += 1
+                p.transitions += len(comp) + 1
                 p.extend(vs)
         p.sample(case)
     elif kind == "refusals":
